@@ -5,6 +5,7 @@ import (
 	"fmt"
 	"os"
 	"runtime/debug"
+	"sort"
 	"strings"
 
 	"go.etcd.io/raft/v3"
@@ -459,12 +460,22 @@ func (w *World) persistSnapshot(n *node, snap *pb.Snapshot, ents []*pb.Entry, hs
 	n.confRegressed = false
 	w.Stats["snap-installed"]++
 	w.logf("node %d installed snapshot (%d,%d) conf=%s", n.id, idx, term, n.mconf)
-	for id := range n.mconf.Members() {
+	for _, id := range sortedMembers(n.mconf) {
 		w.ensureNode(id)
 	}
 }
 
 // ---- application ----
+
+func sortedMembers(c model.Conf) []uint64 {
+	m := c.Members()
+	ids := make([]uint64, 0, len(m))
+	for id := range m {
+		ids = append(ids, id)
+	}
+	sort.Slice(ids, func(i, j int) bool { return ids[i] < ids[j] })
+	return ids
+}
 
 func decodeCC(e *pb.Entry) (*pb.ConfChangeV2, pb.ConfChangeI, bool) {
 	switch e.GetType() {
@@ -515,11 +526,10 @@ func (w *World) applyEntries(n *node, ents []*pb.Entry) {
 			return
 		}
 		w.onApplyEntry(n, e)
-		n.appState = stateStep(n.appState, idx, e.GetType(), e.GetData())
-		n.appIndex = idx
 		d := n.disk
-		d.StateAt[idx] = n.appState
-		w.mon.noteState(w, n, idx, n.appState)
+		// (the application's applied index moves only after a configuration
+		// entry has been handed to ApplyConfChange: a snapshot taken on demand
+		// inside that call must still describe the previous index)
 		if isConfType(e.GetType()) {
 			cc, cci, ok := decodeCC(e)
 			if !ok {
@@ -546,7 +556,7 @@ func (w *World) applyEntries(n *node, ents []*pb.Entry) {
 				}
 				w.onConfApplied(n, idx, cs, next, bootEntry)
 				w.Stats["confchanges-applied"]++
-				for id := range next.Members() {
+				for _, id := range sortedMembers(next) {
 					w.ensureNode(id)
 				}
 			} else {
@@ -554,6 +564,10 @@ func (w *World) applyEntries(n *node, ents []*pb.Entry) {
 				w.logf("node %d cancels conf change at %d: %v", n.id, idx, err)
 			}
 		}
+		n.appState = stateStep(n.appState, idx, e.GetType(), e.GetData())
+		n.appIndex = idx
+		d.StateAt[idx] = n.appState
+		w.mon.noteState(w, n, idx, n.appState)
 		d.DurApplied = max(d.DurApplied, idx)
 		w.Stats["applied"]++
 	}
